@@ -17,13 +17,18 @@ func c03Gen(g *core.Gen) {
 	}
 	// default set, full menu: the menu contains the operators that keep every slice findable while
 	// the file is wrong (ins/cut at slice boundaries, swap, appz / trunc on trailing zeros, app)
-	for _, class := range []string{"uniq", "trailzero", "zero", "periodic", "dupslice"} {
+	for _, class := range []string{"uniq", "trailzero", "trailzero2", "zero", "periodic", "dupslice"} {
 		cfg := scen.P2Config{Sizes: []int{11, 6}, Slice: 4, Blocks: 3, Class: class}
 		d := D
 		if class != "uniq" && class != "trailzero" {
 			d = 1
 		} else if class == "trailzero" && d > 2 {
 			d = 2
+		}
+		if class == "trailzero2" {
+			// last slices of 3 and 2 bytes ending in zeros; also 7 / 3 bytes with slice 8
+			cfg8 := scen.P2Config{Sizes: []int{23, 11}, Slice: 8, Blocks: 2, Class: class}
+			genP2Deviations(g, cfg8, true, 1, mk(cfg8, 1))
 		}
 		genP2Deviations(g, cfg, true, d, mk(cfg, 1))
 	}
